@@ -199,13 +199,15 @@ namespace CaddyModel.C14
 
 /-! ### how the reachable-state invariant moves under the four writes of the CA code -/
 
-theorem InvAt.mono {t t' : Nat} {s : Store} (h : InvAt t s) (ht : t ≤ t') : InvAt t' s where
+theorem InvAt.mono {t t' : Nat} {s : Store} (h : InvAt t s) (_ht : t ≤ t') : InvAt t' s where
   rootKeyKind := h.rootKeyKind
   intKeyKind := h.intKeyKind
   root := h.root
-  inter := fun b hb => by
-    obtain ⟨i, r, ra, rra, j, h1, h2, h3, h4⟩ := h.inter b hb
-    exact ⟨i, r, ra, rra, j, h1, h2, h3, h4.elim Or.inl (fun h => Or.inr (Nat.le_trans h ht))⟩
+  inter := h.inter
+
+/-- the invariant does not depend on the clock -/
+theorem InvAt.any {t t' : Nat} {s : Store} (h : InvAt t s) : InvAt t' s :=
+  ⟨h.rootKeyKind, h.intKeyKind, h.root, h.inter⟩
 
 theorem InvAt.empty (t : Nat) : InvAt t Store.empty where
   rootKeyKind := fun b hb => by simp [Store.empty] at hb
@@ -237,10 +239,9 @@ theorem InvAt.set_rootCrt {t : Nat} {s : Store} (h : InvAt t s) (hrc : s .rootCr
   root := fun b hb => by simp at hb; exact ⟨n, ra, hb.symm, by simp [hrk]⟩
   inter := fun b hb => by simp [h.noInt_of_noRoot hrc] at hb
 
-/-- genIntermediate, first write: allowed when no intermediate certificate is stored, or the
-    stored one is inside its renewal window -/
-theorem InvAt.set_intKey {t : Nat} {s : Store} (h : InvAt t s) (n : Nat)
-    (hdue : ∀ i r ra, s .intCrt = some (.cert i r ra) → ra ≤ t) : InvAt t (s.set .intKey (.key n)) where
+/-- genIntermediate, first write: the key under any stored intermediate certificate may be
+    replaced (the pair is checked when it is loaded) -/
+theorem InvAt.set_intKey {t : Nat} {s : Store} (h : InvAt t s) (n : Nat) : InvAt t (s.set .intKey (.key n)) where
   rootKeyKind := fun b hb => by simp at hb; exact h.rootKeyKind b hb
   intKeyKind := fun b hb => by simp at hb; exact ⟨n, hb.symm⟩
   root := fun b hb => by
@@ -249,8 +250,8 @@ theorem InvAt.set_intKey {t : Nat} {s : Store} (h : InvAt t s) (n : Nat)
     exact ⟨r, ra, h1, by simp [h2]⟩
   inter := fun b hb => by
     simp at hb
-    obtain ⟨i, r, ra, rra, j, h1, h2, _, _⟩ := h.inter b hb
-    exact ⟨i, r, ra, rra, n, h1, by simp [h2], by simp, Or.inr (hdue i r ra (h1 ▸ hb))⟩
+    obtain ⟨i, r, ra, rra, j, h1, h2, _⟩ := h.inter b hb
+    exact ⟨i, r, ra, rra, n, h1, by simp [h2], by simp⟩
 
 /-- genIntermediate, second write: the certificate of the key already stored, signed by the
     stored root -/
@@ -265,7 +266,7 @@ theorem InvAt.set_intCrt {t : Nat} {s : Store} (h : InvAt t s) (n r rra ra : Nat
     exact ⟨r', ra', h1, by simp [h2]⟩
   inter := fun b hb => by
     simp at hb
-    exact ⟨n, r, ra, rra, n, hb.symm, by simp [hrc], by simp [hik], Or.inl rfl⟩
+    exact ⟨n, r, ra, rra, n, hb.symm, by simp [hrc], by simp [hik]⟩
 
 end CaddyModel.C14
 
@@ -326,10 +327,14 @@ theorem wp_genInt {Q : Pair → Store → Nat → Prop} (ord : Order) (now life 
   simp only [wp, hroot, if_true]
   exact hgen
 
-/-- `loadOrGenIntermediate` when an intermediate certificate is stored: nothing is written -/
+/-- `loadOrGenIntermediate` when an intermediate certificate is stored: nothing is written if
+    the stored key is used (`hQ`); a revision that checks the pair regenerates on a foreign key (`hM`) -/
 theorem wp_loadOrGenInt_present {Q : Pair → Store → Nat → Prop} (ord : Order) (now life : Nat) (root : Pair) (s : Store) (fr : Nat)
     (b : Blob) (h : s .intCrt = some b) (hC : C s) (hE : E s fr)
-    (hQ : ∀ p sg ra id, b = .cert p sg ra → s .intKey = some (.key id) → Q ⟨p, sg, ra, id⟩ s fr) :
+    (hQ : ∀ p sg ra id, b = .cert p sg ra → s .intKey = some (.key id) → (ord.checksPair = true → id = p) →
+      Q ⟨p, sg, ra, id⟩ s fr)
+    (hM : ∀ p sg ra id, b = .cert p sg ra → s .intKey = some (.key id) → ord.checksPair = true → id ≠ p →
+      wp C E (genInt ord now life root .genInt) Q s fr) :
     wp C E (loadOrGenInt ord now life root) Q s fr := by
   unfold loadOrGenInt
   simp only [wp, h]
@@ -344,7 +349,16 @@ theorem wp_loadOrGenInt_present {Q : Pair → Store → Nat → Prop} (ord : Ord
     | some ik =>
       cases ik with
       | cert _ _ _ => exact hE
-      | key id => exact hQ p sg ra id rfl hik
+      | key id =>
+        by_cases hc : ord.checksPair = true
+        · by_cases hid : id = p
+          · simp only [hc, hid, bne_self_eq_false, Bool.and_false, Bool.false_eq_true, if_false]
+            exact hQ p sg ra p rfl (hid ▸ hik) (fun _ => rfl)
+          · have : (id != p) = true := by simp [hid]
+            simp only [hc, this, Bool.and_self, if_true]
+            exact hM p sg ra id rfl hik hc hid
+        · simp only [hc, Bool.false_and, Bool.false_eq_true, if_false]
+          exact hQ p sg ra id rfl hik (fun h => absurd h hc)
 
 /-- `loadOrGenIntermediate` when no intermediate certificate is stored -/
 theorem wp_loadOrGenInt_absent {Q : Pair → Store → Nat → Prop} (ord : Order) (now life : Nat) (root : Pair) (s : Store) (fr : Nat)
@@ -369,10 +383,10 @@ def RootOK (t : Nat) (root : Pair) (s : Store) : Prop :=
   root.signer = root.pub ∧ root.keyId = root.pub
 
 /-- after `Provision` returned: additionally an intermediate signed by that root is stored and
-    in hand, with SOME intermediate key — its own, unless the certificate is due for renewal -/
+    in hand, with ITS OWN key (a foreign key was detected and the pair replaced) -/
 def ProvOK (t : Nat) (m : Mem) (s : Store) : Prop :=
   RootOK t m.root s ∧ s .intCrt = some m.inter.crt ∧ s .intKey = some m.inter.key ∧
-  m.inter.signer = m.root.pub ∧ (m.inter.keyId = m.inter.pub ∨ m.inter.renewAt ≤ t)
+  m.inter.signer = m.root.pub ∧ m.inter.keyId = m.inter.pub
 
 theorem phase_root (t now : Nat) (s : Store) (fr : Nat) (h : InvAt t s) :
     wp (InvAt t) (fun s' _ => InvAt t s') (loadOrGenRoot .keyFirst now) (fun root s' _ => RootOK t root s') s fr := by
@@ -393,35 +407,42 @@ theorem phase_root (t now : Nat) (s : Store) (fr : Nat) (h : InvAt t s) :
     cases h2
     exact ⟨h, by simp [hrc, hb, Pair.crt], by simp [hrk, Pair.key], rfl, rfl⟩
 
+/-- the two writes of `genIntermediate` from a store with a complete root, whatever
+    intermediate (if any) is stored -/
+theorem phase_genInt (t now life : Nat) (root : Pair) (s : Store) (fr : Nat) (h : RootOK t root s) :
+    wp (InvAt t) (fun s' _ => InvAt t s') (genInt .keyFirst now life root .genInt)
+      (fun inter s' _ => ProvOK t ⟨root, inter⟩ s') s fr := by
+  obtain ⟨hinv, hrc, hrk, hsg, hkid⟩ := h
+  apply wp_genInt .keyFirst now life root .genInt s fr hkid.symm
+  rw [wp_storePair_keyFirst]
+  have h1 := hinv.set_intKey (t := t) fr
+  have hrc' : s .rootCrt = some (.cert root.pub root.pub root.renewAt) := by
+    rw [hrc, Pair.crt, hsg]
+  have h2 := h1.set_intCrt fr root.pub root.renewAt (now + life) (by simp [hrc']) (by simp)
+  rw [hkid]
+  refine ⟨hinv, h1, hinv, h1, h2, h2, ⟨h2, ?_, ?_, hsg, hkid⟩, ?_, ?_, rfl, rfl⟩
+  · simp [hrc]
+  · simp [hrk]
+  · simp [Pair.crt]
+  · simp [Pair.key]
+
 theorem phase_inter (t now life : Nat) (root : Pair) (s : Store) (fr : Nat) (h : RootOK t root s) :
     wp (InvAt t) (fun s' _ => InvAt t s') (loadOrGenInt .keyFirst now life root)
       (fun inter s' _ => ProvOK t ⟨root, inter⟩ s') s fr := by
+  have hgen := phase_genInt t now life root s fr h
   obtain ⟨hinv, hrc, hrk, hsg, hkid⟩ := h
   cases hic : s .intCrt with
-  | none =>
-    apply wp_loadOrGenInt_absent .keyFirst now life root s fr hic hinv hinv
-    apply wp_genInt .keyFirst now life root .genInt s fr hkid.symm
-    rw [wp_storePair_keyFirst]
-    have h1 := hinv.set_intKey fr (fun i r ra hh => by rw [hic] at hh; cases hh)
-    have hrc' : s .rootCrt = some (.cert root.pub root.pub root.renewAt) := by
-      rw [hrc, Pair.crt, hsg]
-    have h2 := h1.set_intCrt fr root.pub root.renewAt (now + life) (by simp [hrc']) (by simp)
-    rw [hkid]
-    refine ⟨hinv, h1, hinv, h1, h2, h2, ⟨h2, ?_, ?_, hsg, hkid⟩, ?_, ?_, rfl, Or.inl rfl⟩
-    · simp [hrc]
-    · simp [hrk]
-    · simp [Pair.crt]
-    · simp [Pair.key]
+  | none => exact wp_loadOrGenInt_absent .keyFirst now life root s fr hic hinv hinv hgen
   | some b =>
     apply wp_loadOrGenInt_present .keyFirst now life root s fr b hic hinv hinv
-    intro p sg ra id hb hik
-    obtain ⟨i, r, ra', rra, j, h1, h2, h3, h4⟩ := hinv.inter b hic
-    rw [hb] at h1
-    cases h1
-    rw [hik] at h3
-    cases h3
-    simp only [hrc, Pair.crt, Option.some.injEq, Blob.cert.injEq] at h2
-    exact ⟨⟨hinv, hrc, hrk, hsg, hkid⟩, by simp [hic, hb, Pair.crt], by simp [hik, Pair.key], h2.1.symm, h4⟩
+    · intro p sg ra id hb hik hown
+      obtain ⟨i, r, ra', rra, j, h1, h2, h3⟩ := hinv.inter b hic
+      rw [hb] at h1
+      cases h1
+      simp only [hrc, Pair.crt, Option.some.injEq, Blob.cert.injEq] at h2
+      exact ⟨⟨hinv, hrc, hrk, hsg, hkid⟩, by simp [hic, hb, Pair.crt], by simp [hik, Pair.key], h2.1.symm, hown rfl⟩
+    · intro _ _ _ _ _ _ _ _
+      exact hgen
 
 /-- what a start-up that returns has in hand and in store as far as the root goes -/
 def RootHeld (t : Nat) (m : Mem) (s : Store) : Prop :=
@@ -441,17 +462,15 @@ theorem RootHeld.self {t : Nat} {m : Mem} {s : Store} (h : RootHeld t m s) :
 theorem RootHeld.mono {t t' : Nat} {m : Mem} {s : Store} (h : RootHeld t m s) (ht : t ≤ t') : RootHeld t' m s :=
   ⟨h.1.mono ht, h.2.1, h.2.2⟩
 
-/-- `renewCertsForCA` — at `Start` or at run time — under ANY fault, provided that whenever the
-    certificate IN MEMORY is due, the certificate IN STORAGE is due as well -/
-theorem phase_renew' (c : Cfg) (m : Mem) (s : Store) (fr : Nat) (h : RootHeld c.now m s)
-    (hduest : m.inter.renewAt ≤ c.now → ∀ i r ra, s .intCrt = some (.cert i r ra) → ra ≤ c.now) :
+/-- `renewCertsForCA` — at `Start` or at run time — under ANY fault, whatever intermediate the
+    process holds in memory and whatever intermediate is stored -/
+theorem phase_renew' (c : Cfg) (m : Mem) (s : Store) (fr : Nat) (h : RootHeld c.now m s) :
     wp (InvAt c.now) (fun s' _ => InvAt c.now s') (renew .keyFirst c m) (fun m' s' _ => RootHeld c.now m' s') s fr := by
   obtain ⟨hsg, hkid⟩ := h.self
   obtain ⟨hinv, hrc, hrk⟩ := h
   unfold renew
   split
-  · rename_i hdue
-    rw [wp_orElse, wp_bind]
+  · rw [wp_orElse, wp_bind]
     apply wp_loadOrGenRoot_present .keyFirst c.now s fr m.root.crt hrc hinv ⟨hinv, hrc, hrk⟩
     intro p sg ra id hb hrk'
     rw [hrk, Pair.key] at hrk'
@@ -461,8 +480,7 @@ theorem phase_renew' (c : Cfg) (m : Mem) (s : Store) (fr : Nat) (h : RootHeld c.
     rw [wp_bind]
     apply wp_genInt .keyFirst c.now c.life _ .genInt s fr hkid.symm
     rw [wp_storePair_keyFirst]
-    have hd : m.inter.renewAt ≤ c.now := by simpa [due] using hdue
-    have h1 := hinv.set_intKey fr (hduest hd)
+    have h1 := hinv.set_intKey (t := c.now) fr
     have hrc' : s .rootCrt = some (.cert m.root.pub m.root.pub m.root.renewAt) := by
       rw [hrc, Pair.crt, hsg]
     have h2 := h1.set_intCrt fr m.root.pub m.root.renewAt (c.now + c.life) (by simp [hrc']) (by simp)
@@ -476,9 +494,8 @@ theorem phase_renew' (c : Cfg) (m : Mem) (s : Store) (fr : Nat) (h : RootHeld c.
 
 theorem phase_renew (c : Cfg) (m : Mem) (s : Store) (fr : Nat) (h : ProvOK c.now m s) :
     wp (InvAt c.now) (fun s' _ => InvAt c.now s') (renew .keyFirst c m) (fun m' s' _ => RootHeld c.now m' s') s fr := by
-  obtain ⟨⟨hinv, hrc, hrk, _, _⟩, hic, _, _, _⟩ := h
-  exact phase_renew' c m s fr ⟨hinv, hrc, hrk⟩ (fun hd i r ra hh => by
-    rw [hic, Pair.crt] at hh; cases hh; exact hd)
+  obtain ⟨⟨hinv, hrc, hrk, _, _⟩, _, _, _, _⟩ := h
+  exact phase_renew' c m s fr ⟨hinv, hrc, hrk⟩
 
 /-- every exit of a start-up — return, error, death at any storage operation before or after
     its effect — leaves a store that satisfies the invariant again; if it returns, the root it
@@ -517,53 +534,61 @@ theorem phaseN_root (t now : Nat) (s : Store) (fr : Nat) (h : InvAt t s) :
     simp only [wpn, hrc, h2]
     exact ⟨h, by simp [hrc, Pair.crt], by simp [h2, Pair.key], rfl, rfl⟩
 
+theorem phaseN_genInt (t now life : Nat) (root : Pair) (s : Store) (fr : Nat) (h : RootOK t root s) :
+    wpn noErr (genInt .keyFirst now life root .genInt) (fun inter s' _ => ProvOK t ⟨root, inter⟩ s') s fr := by
+  obtain ⟨hinv, hrc, hrk, hsg, hkid⟩ := h
+  simp only [wpn, genInt, hkid, if_true, storePair]
+  have h1 := hinv.set_intKey (t := t) fr
+  have hrc' : s .rootCrt = some (.cert root.pub root.pub root.renewAt) := by
+    rw [hrc, Pair.crt, hsg]
+  have h2 := h1.set_intCrt fr root.pub root.renewAt (now + life) (by simp [hrc']) (by simp)
+  refine ⟨⟨h2, ?_, ?_, hsg, hkid⟩, ?_, ?_, rfl, rfl⟩
+  · simp [hrc]
+  · simp [hrk]
+  · simp [Pair.crt, Pair.key]
+  · simp [Pair.key]
+
 theorem phaseN_inter (t now life : Nat) (root : Pair) (s : Store) (fr : Nat) (h : RootOK t root s) :
     wpn noErr (loadOrGenInt .keyFirst now life root) (fun inter s' _ => ProvOK t ⟨root, inter⟩ s') s fr := by
+  have hgen := phaseN_genInt t now life root s fr h
   obtain ⟨hinv, hrc, hrk, hsg, hkid⟩ := h
   unfold loadOrGenInt
   cases hic : s .intCrt with
   | none =>
-    simp only [wpn, hic, genInt, hkid, if_true, storePair]
-    have h1 := hinv.set_intKey fr (fun i r ra hh => by rw [hic] at hh; cases hh)
-    have hrc' : s .rootCrt = some (.cert root.pub root.pub root.renewAt) := by
-      rw [hrc, Pair.crt, hsg]
-    have h2 := h1.set_intCrt fr root.pub root.renewAt (now + life) (by simp [hrc']) (by simp)
-    refine ⟨⟨h2, ?_, ?_, hsg, hkid⟩, ?_, ?_, rfl, Or.inl rfl⟩
-    · simp [hrc]
-    · simp [hrk]
-    · simp [Pair.crt, Pair.key]
-    · simp [Pair.key]
+    simp only [wpn, hic]
+    exact hgen
   | some b =>
-    obtain ⟨i, r, ra', rra, j, h1, h2, h3, h4⟩ := hinv.inter b hic
+    obtain ⟨i, r, ra', rra, j, h1, h2, h3⟩ := hinv.inter b hic
     subst h1
-    simp only [wpn, hic, h3]
+    simp only [wpn, hic, h3, Order.checksPair, Bool.true_and]
     simp only [hrc, Pair.crt, Option.some.injEq, Blob.cert.injEq] at h2
-    exact ⟨⟨hinv, hrc, hrk, hsg, hkid⟩, by simp [hic, Pair.crt], by simp [h3, Pair.key], h2.1.symm, h4⟩
+    by_cases hji : j = i
+    · subst hji
+      simp only [bne_self_eq_false, Bool.false_eq_true, if_false, wpn]
+      exact ⟨⟨hinv, hrc, hrk, hsg, hkid⟩, by simp [hic, Pair.crt], by simp [h3, Pair.key], h2.1.symm, rfl⟩
+    · have : (j != i) = true := by simp [hji]
+      simp only [this, if_true]
+      exact hgen
 
 theorem phaseN_renew (c : Cfg) (m : Mem) (s : Store) (fr : Nat) (h : ProvOK c.now m s) :
     wpn noErr (renew .keyFirst c m) (fun m' s' _ => Complete s' m' ∧ m'.Consistent ∧ InvAt c.now s' ∧ m'.root = m.root) s fr := by
   obtain ⟨⟨hinv, hrc, hrk, hsg, hkid⟩, hic, hik, hisg, hown⟩ := h
   unfold renew
   split
-  · rename_i hdue
-    have hd : m.inter.renewAt ≤ c.now := by simpa [due] using hdue
-    rw [wpn_orElse, wpn_bind]
+  · rw [wpn_orElse, wpn_bind]
     unfold loadOrGenRoot
     have hrc' : s .rootCrt = some (.cert m.root.pub m.root.pub m.root.renewAt) := by
       rw [hrc, Pair.crt, hsg]
     have hrk' : s .rootKey = some (.key m.root.pub) := by rw [hrk, Pair.key, hkid]
     simp only [wpn, hrc', hrk', wpn_bind, genInt, if_true, storePair]
-    have h1 := hinv.set_intKey fr (fun i r ra hh => by
-      rw [hic, Pair.crt] at hh; cases hh; exact hd)
+    have h1 := hinv.set_intKey (t := c.now) fr
     have h2 := h1.set_intCrt fr m.root.pub m.root.renewAt (c.now + c.life) (by simp [hrc']) (by simp)
     refine ⟨⟨?_, ?_, ?_, ?_⟩, ⟨hsg, hkid, rfl, rfl⟩, h2, trivial⟩
     · simp [hrc]
     · simp [hrk]
     · simp [Pair.crt, Pair.key]
     · simp [Pair.key]
-  · rename_i hdue
-    have hnd : ¬ m.inter.renewAt ≤ c.now := by simpa [due] using hdue
-    exact ⟨⟨hrc, hrk, hic, hik⟩, ⟨hsg, hkid, hisg, hown.resolve_right hnd⟩, hinv, rfl⟩
+  · exact ⟨⟨hrc, hrk, hic, hik⟩, ⟨hsg, hkid, hisg, hown⟩, hinv, rfl⟩
 
 /-- an uninterrupted start-up on a store that satisfies the invariant returns, with a
     consistent chain that is exactly what the store then holds -/
@@ -597,6 +622,9 @@ theorem frame_storePair (ord : Order) (kK kC : Key) (p : Pair) (e : Err) (s : St
   | keyFirst =>
     simp only [storePair, wp]
     exact ⟨h, hK _ _ h, h, hK _ _ h, hK _ _ h, hC _ _ (hK _ _ h), hK _ _ h, hC _ _ (hK _ _ h), hC _ _ (hK _ _ h)⟩
+  | keyFirstUnchecked =>
+    simp only [storePair, wp]
+    exact ⟨h, hK _ _ h, h, hK _ _ h, hK _ _ h, hC _ _ (hK _ _ h), hK _ _ h, hC _ _ (hK _ _ h), hC _ _ (hK _ _ h)⟩
   | certFirst =>
     simp only [storePair, wp]
     exact ⟨h, hC _ _ h, h, hC _ _ h, hC _ _ h, hK _ _ (hC _ _ h), hC _ _ h, hK _ _ (hC _ _ h), hK _ _ (hC _ _ h)⟩
@@ -615,7 +643,9 @@ theorem frame_loadOrGenInt (ord : Order) (now life : Nat) (root : Pair) (s : Sto
     wp F (fun s' _ => F s') (loadOrGenInt ord now life root) (fun _ s' _ => F s') s fr := by
   cases hic : s .intCrt with
   | none => exact wp_loadOrGenInt_absent ord now life root s fr hic h h (frame_genInt ord now life root _ s fr hK hC h)
-  | some b => exact wp_loadOrGenInt_present ord now life root s fr b hic h h (fun _ _ _ _ _ _ => h)
+  | some b =>
+    exact wp_loadOrGenInt_present ord now life root s fr b hic h h (fun _ _ _ _ _ _ _ => h)
+      (fun _ _ _ _ _ _ _ _ => frame_genInt ord now life root _ s fr hK hC h)
 
 theorem frame_loadOrGenRoot (ord : Order) (now : Nat) (s : Store) (fr : Nat)
     (hK : ∀ s b, F s → F (s.set .rootKey b)) (hC : ∀ s b, F s → F (s.set .rootCrt b)) (h : F s) :
@@ -661,10 +691,10 @@ theorem wp_startup_root_frozen (ord : Order) (c : Cfg) (s : Store) (fr : Nat) (b
     · intro inter' s3 _ h3; exact ⟨h3, by simp [Pair.crt, hb]⟩
   · exact ⟨h2, by simp [Pair.crt, hb]⟩
 
-/-- a stored intermediate certificate that is not inside its renewal window is never touched,
-    nor is the key stored next to it; a start-up that returns uses exactly that certificate -/
+/-- a stored intermediate certificate that is not inside its renewal window and has its own key
+    next to it is never touched, nor is that key; a start-up that returns uses exactly that pair -/
 theorem wp_startup_inter_frozen (ord : Order) (c : Cfg) (s : Store) (fr : Nat) (i r ra : Nat)
-    (h : s .intCrt = some (.cert i r ra)) (hnd : c.now < ra) :
+    (h : s .intCrt = some (.cert i r ra)) (hown : s .intKey = some (.key i)) (hnd : c.now < ra) :
     wp (fun s' => s' .intCrt = some (.cert i r ra) ∧ s' .intKey = s .intKey)
        (fun s' _ => s' .intCrt = some (.cert i r ra) ∧ s' .intKey = s .intKey)
        (startup ord c)
@@ -682,13 +712,18 @@ theorem wp_startup_inter_frozen (ord : Order) (c : Cfg) (s : Store) (fr : Nat) (
   intro root s1 fr1 h1
   rw [wp_bind]
   apply wp_loadOrGenInt_present ord c.now c.life root s1 fr1 _ h1.1 h1 h1
-  intro p sg ra' id hb hik
-  cases hb
-  show wp _ _ (renew ord c ⟨root, ⟨i, r, ra, id⟩⟩) _ s1 fr1
-  unfold renew
-  have : due ⟨i, r, ra, id⟩ c.now = false := by simp [due]; omega
-  simp only [this]
-  exact ⟨h1, rfl, hik⟩
+  · intro p sg ra' id hb hik _
+    cases hb
+    show wp _ _ (renew ord c ⟨root, ⟨i, r, ra, id⟩⟩) _ s1 fr1
+    unfold renew
+    have : due ⟨i, r, ra, id⟩ c.now = false := by simp [due]; omega
+    simp only [this]
+    exact ⟨h1, rfl, hik⟩
+  · intro p sg ra' id hb hik _ hne
+    cases hb
+    rw [h1.2, hown] at hik
+    cases hik
+    exact absurd rfl hne
 
 end CaddyModel.C14
 
